@@ -15,7 +15,7 @@ VERIF="$(dirname "$HERE")"
 HARNESS="${HARNESS:-$VERIF/harness}"
 LEANBIN="${LEANBIN:-/verif/lean/.lake/build/bin}"
 PROP="${1:-C06}"; TIER="${2:-quick}"; SEED="${3:-1}"; N="${4:-0}"
-OUT="${OUT:-${EVID:-$VERIF/evidence}/$PROP.race.json}"
+OUT="${OUT:-$VERIF/run/$PROP.race.json}"
 REPLAYS="${REPLAYS:-$VERIF/replays}"
 export GOFLAGS=-mod=mod GOPROXY=off GOSUMDB=off GOTOOLCHAIN=local CGO_ENABLED=1
 mkdir -p "$(dirname "$OUT")" "$HARNESS/bin"
